@@ -5,6 +5,7 @@
 use crate::scalar::X;
 use cgmath::*;
 
+pub mod extra;
 pub mod mat;
 pub mod oracle;
 pub mod point;
@@ -234,6 +235,7 @@ pub fn lookup(name: &str) -> Option<OpFn> {
         .or_else(|| mat::lookup(name))
         .or_else(|| quat::lookup(name))
         .or_else(|| xform::lookup(name))
+        .or_else(|| extra::lookup(name))
         .or_else(|| oracle::lookup(name))
 }
 pub fn all_names() -> Vec<String> {
@@ -243,6 +245,7 @@ pub fn all_names() -> Vec<String> {
     v.extend(mat::names());
     v.extend(quat::NAMES.iter().map(|s| s.to_string()));
     v.extend(xform::names());
+    v.extend(extra::names());
     v.extend(oracle::names());
     v
 }
